@@ -7,7 +7,7 @@ ID = 'C03'
 LEVEL = 'exploration'
 RULE = (
     'Generated event trees (depth <= 3, awaited / later / fire-and-forget children on any bus, raising handlers, '
-    'forwarding, explicit parent ids) with 1-3 actors awaiting roots and descendants before, during and long after '
+    'forwarding, explicit parent ids, self-recursive wildcard handlers deep enough to trip the recursion guard) with 1-3 actors awaiting roots and descendants before, during and long after '
     'processing. Oracle at the instant each external await returns: same object, no exception, all results terminal, '
     'every harness-known accepted descendant complete; liveness: no actor is still blocked in an await when the run '
     'has been silent for longer than any generated wait. Non-trivial = the awaited event had >= 1 accepted descendant; '
@@ -15,7 +15,7 @@ RULE = (
 )
 ASSUMPTIONS = ['virtual time; liveness judged as bounded safety (progress-based stall detector)', 'no firing timeouts, no stop(), history unlimited or default 50 with < 50 events']
 
-P = Profile(raises=0.2, actor_ops=['disp', 'disp', 'sleep', 'await', 'await', 'awaitdesc', 'yield'], max_actor_ops=6, maxdepth=[2, 3, 3], wild=0.15, fwd=0.35, xp=0.05, modes=['await', 'later', 'ff', 'ff'])
+P = Profile(raises=0.2, actor_ops=['disp', 'disp', 'sleep', 'await', 'await', 'awaitdesc', 'yield'], max_actor_ops=6, maxdepth=[2, 3, 3], wild=0.15, fwd=0.35, xp=0.05, modes=['await', 'later', 'ff', 'ff'], deep_wild=True)
 
 
 def budget(tier):
